@@ -60,6 +60,7 @@ class EighStub:
 class C02(Check):
     pid = 'C02'
     validate = True
+    fork_logging = True       # DEBUG logging on/off is a symbolic input of every path
     anchors = [('src/fast_ticc/admm/solver.py', 'soft_threshold_prox'), ('src/fast_ticc/admm/solver.py', 'compute_lambda_sum'),
                ('src/fast_ticc/admm/solver.py', 'admm_update_z'), ('src/fast_ticc/admm/solver.py', 'admm_update_u'),
                ('src/fast_ticc/admm/solver.py', 'admm_update_x'), ('src/fast_ticc/admm/solver.py', 'x_update_prox'),
